@@ -948,6 +948,30 @@ func genSrvGoAway(p *prng, thorough bool, w *bufio.Writer) {
 		}
 		g.ping(4)
 	}
+	// idle-timeout shutdown racing new requests: the timer's GOAWAY is held between reading lastID and queueing the
+	// frame while the stream loop deals with a new request (an interleaving the serial stepping never produces; the
+	// result is judged by the GOAWAY monitor, the model answers `mon`)
+	races := 12
+	if thorough {
+		races = 120
+	}
+	for c := 0; c < races; c++ {
+		g.newConn(6, 0, 0)
+		g.settings()
+		for i := p.intn(3); i > 0; i-- {
+			sid := g.sid()
+			g.simpleReq(sid, "GET", nil)
+			if p.chance(1, 2) {
+				g.done(sid, g.randResp())
+			}
+		}
+		var b []byte
+		for i := 1 + p.intn(3); i > 0; i-- {
+			sid := g.sid()
+			b = append(b, frameBytes(1, 5, sid, g.enc.block(nil, []kv{{k: ":method", v: "GET"}, {k: ":scheme", v: "https"}, {k: ":path", v: "/"}, {k: ":authority", v: "a"}}))...)
+		}
+		g.line("srv %s racega %s", g.id, hexOrDash(b))
+	}
 	g.line("srv %s end", g.id)
 }
 
